@@ -54,6 +54,98 @@ const PA_BASE: u64 = 0x0000_1000_0010_0000 - 16;
 const PB_BASE: u64 = 0x0000_1000_0050_0000;
 const MB_BASE: u64 = 0x0000_1000_0020_0000 - 32;
 
+struct Bufs {
+    pa: FixedBuf,
+    pb: FixedBuf,
+    mb: FixedBuf,
+}
+
+fn make_bufs() -> Bufs {
+    Bufs {
+        pa: FixedBuf::new(PA_BASE, &{ let mut v = vec![0x11u8; 16]; v[1] = 1; v }).unwrap(),
+        pb: FixedBuf::new(PB_BASE, &{ let mut v = vec![0x22u8; 24]; v[1] = 2; v }).unwrap(),
+        mb: FixedBuf::new(MB_BASE, &[0x33u8; 32]).unwrap(),
+    }
+}
+
+/// Create the VM of a history; pushes the "new" event.  None: no VM object (refused or panicked).
+fn make_vm(kind: &str, first: Option<&str>, events: &mut Vec<Value>) -> Option<Vm> {
+    let made = std::panic::catch_unwind(|| Vm::new(kind, first.map(program), layout("A")));
+    match made {
+        Ok(Ok(vm)) => {
+            events.push(json!({"e": "new", "arg": first.unwrap_or("none"), "res": "ok"}));
+            Some(vm)
+        }
+        Ok(Err(_)) => {
+            events.push(json!({"e": "new", "arg": first.unwrap_or("none"), "res": "err"}));
+            None
+        }
+        Err(e) => {
+            events.push(json!({"e": "new", "arg": first.unwrap_or("none"), "res": format!("panic:{}", panic_msg(e))}));
+            None
+        }
+    }
+}
+
+/// Perform one API call on the real object; the result as the specification names it.
+fn perform(vm: &mut Vm, b: &Bufs, op: &str, arg: &Value) -> String {
+    let call = |f: &mut dyn FnMut() -> Result<String, String>| -> String {
+        match std::panic::catch_unwind(std::panic::AssertUnwindSafe(|| f())) {
+            Ok(Ok(s)) => s,
+            Ok(Err(_)) => "err".to_string(),
+            Err(e) => format!("panic:{}", panic_msg(e)),
+        }
+    };
+    match op {
+        "set_program" => {
+            let (p, lay) = (arg[0].as_str().unwrap(), arg[1].as_str().unwrap());
+            call(&mut || vm.set_program(program(p), layout(lay)).map(|_| "ok".to_string()))
+        }
+        "set_verifier" => {
+            let f: rbpf::Verifier = match arg.as_str().unwrap() { "acceptAll" => accept_all, "rejectAll" => reject_all, _ => custom };
+            call(&mut || vm.set_verifier(f).map(|_| "ok".to_string()))
+        }
+        "register_helper" => call(&mut || vm.register_helper(1, exec::HELPERS[0]).map(|_| "ok".to_string())),
+        "set_calc" => call(&mut || vm.set_calc(calc64, Box::new(())).map(|_| "ok".to_string())),
+        "jit_compile" => call(&mut || vm.jit_compile().map(|_| "ok".to_string())),
+        "cl_compile" => call(&mut || vm.cranelift_compile().map(|_| "ok".to_string())),
+        "exec" | "exec_jit" | "exec_cl" => {
+            let engine = match op { "exec" => "interp", "exec_jit" => "jit", _ => "cl" };
+            let k = arg.as_str().unwrap();
+            let base = if k == "pb" { PB_BASE } else { PA_BASE };
+            call(&mut || {
+                let pkt: &mut [u8] = match k {
+                    "pa" => b.pa.slice(),
+                    "pb" => b.pb.slice(),
+                    "pc" => &mut b.pa.slice()[..8],
+                    _ => &mut [],
+                };
+                vm.exec(engine, pkt, b.mb.slice()).map(|v| if v == base { "pkt".to_string() } else { v.to_string() })
+            })
+        }
+        other => panic!("api op {other}"),
+    }
+}
+
+/// A scripted history (a walk through VmApi's state graph planned by lib/tour.py).
+pub fn run_script(job: &Value) -> Value {
+    let kind = job["kind"].as_str().unwrap();
+    exec::set_helper_id(0, 1);
+    let b = make_bufs();
+    let mut events: Vec<Value> = Vec::new();
+    let first = job["first"].as_str().filter(|s| *s != "none");
+    let mut vm = match make_vm(kind, first, &mut events) {
+        Some(vm) => vm,
+        None => return json!({"events": events}),
+    };
+    for c in arr(&job["calls"]) {
+        let (op, arg) = (c[0].as_str().unwrap(), &c[1]);
+        let res = perform(&mut vm, &b, op, arg);
+        events.push(json!({"e": "call", "op": op, "arg": arg, "res": res}));
+    }
+    json!({"events": events})
+}
+
 /// One random history on one VM kind; returns its events.  Runs in a child process.
 pub fn run_history(job: &Value) -> Value {
     let kind = job["kind"].as_str().unwrap();
@@ -70,41 +162,21 @@ pub fn run_history(job: &Value) -> Value {
         progs.push("P9");
     }
     let layouts: Vec<&str> = if kind == "fixed" { vec!["A", "C"] } else { vec!["A"] };
-    let pa = FixedBuf::new(PA_BASE, &{ let mut v = vec![0x11u8; 16]; v[1] = 1; v }).unwrap();
-    let pb = FixedBuf::new(PB_BASE, &{ let mut v = vec![0x22u8; 24]; v[1] = 2; v }).unwrap();
-    let mb = FixedBuf::new(MB_BASE, &[0x33u8; 32]).unwrap();
+    let b = make_bufs();
     let mut events: Vec<Value> = Vec::new();
 
     // new(None) or new(Some(p))
     let first: Option<&str> = if r.chance(1, 2) { None } else { Some(*r.pick(&progs)) };
-    let made = std::panic::catch_unwind(|| Vm::new(kind, first.map(program), layout("A")));
-    let mut vm = match made {
-        Ok(Ok(vm)) => {
-            events.push(json!({"e": "new", "arg": first.unwrap_or("none"), "res": "ok"}));
-            vm
-        }
-        Ok(Err(_)) => {
-            events.push(json!({"e": "new", "arg": first.unwrap_or("none"), "res": "err"}));
-            return json!({"events": events});
-        }
-        Err(e) => {
-            events.push(json!({"e": "new", "arg": first.unwrap_or("none"), "res": format!("panic:{}", panic_msg(e))}));
-            return json!({"events": events});
-        }
+    let mut vm = match make_vm(kind, first, &mut events) {
+        Some(vm) => vm,
+        None => return json!({"events": events}),
     };
     let mut under_accept_all = false;
     let mut loaded_px = false;
-    let mut cur: Option<&str> = if events[0]["res"] == "ok" { first } else { None };
+    let mut cur: Option<&str> = first;
     for _ in 0..len {
         let choice = r.below(100);
-        let (op, arg, res): (&str, Value, String);
-        let call = |f: &mut dyn FnMut() -> Result<String, String>| -> String {
-            match std::panic::catch_unwind(std::panic::AssertUnwindSafe(|| f())) {
-                Ok(Ok(s)) => s,
-                Ok(Err(_)) => "err".to_string(),
-                Err(e) => format!("panic:{}", panic_msg(e)),
-            }
-        };
+        let (op, arg): (&str, Value);
         if choice < 25 {
             let mut p = *r.pick(&progs);
             if under_accept_all && p == "PX" {
@@ -113,11 +185,6 @@ pub fn run_history(job: &Value) -> Value {
             let lay = *r.pick(&layouts);
             op = "set_program";
             arg = json!([p, lay]);
-            res = call(&mut || vm.set_program(program(p), layout(lay)).map(|_| "ok".to_string()));
-            if res == "ok" {
-                loaded_px = p == "PX";
-                cur = Some(p);
-            }
         } else if choice < 37 {
             let mut v = *r.pick(&["acceptAll", "rejectAll", "custom"]);
             if v == "acceptAll" && loaded_px {
@@ -125,27 +192,18 @@ pub fn run_history(job: &Value) -> Value {
             }
             op = "set_verifier";
             arg = json!(v);
-            let f: rbpf::Verifier = match v { "acceptAll" => accept_all, "rejectAll" => reject_all, _ => custom };
-            res = call(&mut || vm.set_verifier(f).map(|_| "ok".to_string()));
-            if res == "ok" {
-                under_accept_all = v == "acceptAll";
-            }
         } else if choice < 43 {
             op = "register_helper";
             arg = json!(1);
-            res = call(&mut || vm.register_helper(1, exec::HELPERS[0]).map(|_| "ok".to_string()));
         } else if choice < 47 {
             op = "set_calc";
             arg = json!(64);
-            res = call(&mut || vm.set_calc(calc64, Box::new(())).map(|_| "ok".to_string()));
         } else if choice < 57 {
             op = "jit_compile";
             arg = json!("none");
-            res = call(&mut || vm.jit_compile().map(|_| "ok".to_string()));
         } else if choice < 65 {
             op = "cl_compile";
             arg = json!("none");
-            res = call(&mut || vm.cranelift_compile().map(|_| "ok".to_string()));
         } else {
             let mut k = *r.pick(&["pa", "pb", "pc", "pe", "pa", "pe"]);
             let engine = if choice < 80 { "interp" } else if choice < 91 { "jit" } else { "cl" };
@@ -154,16 +212,18 @@ pub fn run_history(job: &Value) -> Value {
             }
             op = match engine { "interp" => "exec", "jit" => "exec_jit", _ => "exec_cl" };
             arg = json!(k);
-            let base = if k == "pb" { PB_BASE } else { PA_BASE };
-            res = call(&mut || {
-                let pkt: &mut [u8] = match k {
-                    "pa" => pa.slice(),
-                    "pb" => pb.slice(),
-                    "pc" => &mut pa.slice()[..8],
-                    _ => &mut [],
-                };
-                vm.exec(engine, pkt, mb.slice()).map(|v| if v == base { "pkt".to_string() } else { v.to_string() })
-            });
+        }
+        let res = perform(&mut vm, &b, op, &arg);
+        if res == "ok" {
+            match op {
+                "set_program" => {
+                    let p = arg[0].as_str().unwrap();
+                    loaded_px = p == "PX";
+                    cur = progs.iter().copied().find(|x| *x == p);
+                }
+                "set_verifier" => under_accept_all = arg == "acceptAll",
+                _ => {}
+            }
         }
         events.push(json!({"e": "call", "op": op, "arg": arg, "res": res}));
     }
